@@ -1,4 +1,4 @@
-import PilotaModel.Lemmas.IdlItem
+import PilotaModel.Lemmas.IdlEnum
 /-
   C15: items and the document loop (`many_till(tuple((opt(blank), Item::parse, opt(blank))), eof)`).
 -/
@@ -6,11 +6,16 @@ namespace Pilota.Idl
 
 /-- the stage reached by the round-trip proof: which item kinds `file_rt_partial` covers -/
 def Item.supported : Item → Bool
-  | .include _ | .cppInclude _ | .namespace _ | .typedef _ => true
-  | _ => false
+  | .include _ | .cppInclude _ | .namespace _ | .typedef _ | .enum _ => true
+  | .constant c => c.value.supported
+  | .struct s | .union s | .exception s => s.supported
+  | .service _ => false
 
 def Item.depth : Item → Nat
   | .typedef t => t.ty.depth
+  | .constant c => c.depth
+  | .struct s | .union s | .exception s => s.depth
+  | .enum _ => 1
   | _ => 0
 
 def File.depth (f : File) : Nat := (f.items.map Item.depth).foldl max 0
@@ -78,8 +83,70 @@ theorem item_rt {it : Item} (hw : it.wf = true) (hs : it.supported = true) {d : 
     rw [andThen_of_ok hk]
     simp only [List.cons.injEq, Char.reduceEq, false_and, and_false, if_false, if_true, reduceIte]
     exact pmap_of_ok h
-  | .constant _, _, hs, _ | .enum _, _, hs, _ | .struct _, _, hs, _ | .union _, _, hs, _
-  | .exception _, _, hs, _ | .service _, _, hs, _ => simp [Item.supported] at hs
+  | .constant c, hw, hs, hd =>
+    obtain ⟨g, hg, h⟩ := constant_rt (c := c) hw hs hd last l hlast hR
+    refine ⟨g, hg, ?_⟩
+    have hk : itemKeyword ((rItem (.constant c) last l).1 ++ R) = .ok cs!"const" ((rItem (.constant c) last l).1 ++ R) := by
+      simp only [rItem, rConstant, rSeq_fst, rLit_fst, List.append_assoc]
+      exact itemKeyword_rt (by decide) (by decide) (keyword_then_blank cs!"const" _ _)
+    unfold Item.parse
+    rw [andThen_of_ok hk]
+    simp only [List.cons.injEq, Char.reduceEq, false_and, and_false, if_false, if_true, reduceIte]
+    exact pmap_of_ok h
+  | .enum e, hw, _, hd =>
+    have hd' : 1 < d := hd
+    have htext : (rItem (.enum e) last l).1 ++ R = (rEnum e l).1 ++ ((rB0 (rEnum e l).2).1 ++ R) := by
+      simp only [rItem, rSeq_fst, List.append_assoc]
+    obtain ⟨g, hg, h⟩ := enum_rt (e := e) hw hd' l (rB0_BT (rEnum e l).2) hR
+    refine ⟨g, hg, ?_⟩
+    have hk : itemKeyword ((rItem (.enum e) last l).1 ++ R) = .ok cs!"enum" ((rItem (.enum e) last l).1 ++ R) := by
+      simp only [rItem, rEnum, rSeq_fst, rLit_fst, List.append_assoc]
+      exact itemKeyword_rt (by decide) (by decide) (keyword_then_blank cs!"enum" _ _)
+    unfold Item.parse
+    rw [andThen_of_ok hk]
+    simp only [List.cons.injEq, Char.reduceEq, false_and, and_false, if_false, if_true, reduceIte]
+    rw [htext]
+    exact pmap_of_ok h
+  | .struct s, hw, hs, hd =>
+    obtain ⟨g, hg, h⟩ := structItem_rt cs!"struct" Struct.parse (fun _ => rfl) (s := s) hw hs hd last l hR
+    refine ⟨g, hg, ?_⟩
+    have htext : (rItem (.struct s) last l).1 ++ R = cs!"struct" ++ ((rB1 l).1 ++ ((rStructLike s last (rB1 l).2).1 ++ R)) := by
+      simp only [rItem, rSeq_fst, rSeq_snd, rLit_fst, rLit_snd, List.append_assoc]
+    have hk : itemKeyword ((rItem (.struct s) last l).1 ++ R) = .ok cs!"struct" ((rItem (.struct s) last l).1 ++ R) := by
+      rw [htext]
+      exact itemKeyword_rt (by decide) (by decide) (keyword_then_blank cs!"struct" _ _)
+    unfold Item.parse
+    rw [andThen_of_ok hk]
+    simp only [List.cons.injEq, Char.reduceEq, false_and, and_false, if_false, if_true, reduceIte]
+    rw [htext]
+    exact pmap_of_ok h
+  | .union s, hw, hs, hd =>
+    obtain ⟨g, hg, h⟩ := structItem_rt cs!"union" Union.parse (fun _ => rfl) (s := s) hw hs hd last l hR
+    refine ⟨g, hg, ?_⟩
+    have htext : (rItem (.union s) last l).1 ++ R = cs!"union" ++ ((rB1 l).1 ++ ((rStructLike s last (rB1 l).2).1 ++ R)) := by
+      simp only [rItem, rSeq_fst, rSeq_snd, rLit_fst, rLit_snd, List.append_assoc]
+    have hk : itemKeyword ((rItem (.union s) last l).1 ++ R) = .ok cs!"union" ((rItem (.union s) last l).1 ++ R) := by
+      rw [htext]
+      exact itemKeyword_rt (by decide) (by decide) (keyword_then_blank cs!"union" _ _)
+    unfold Item.parse
+    rw [andThen_of_ok hk]
+    simp only [List.cons.injEq, Char.reduceEq, false_and, and_false, if_false, if_true, reduceIte]
+    rw [htext]
+    exact pmap_of_ok h
+  | .exception s, hw, hs, hd =>
+    obtain ⟨g, hg, h⟩ := structItem_rt cs!"exception" Exception.parse (fun _ => rfl) (s := s) hw hs hd last l hR
+    refine ⟨g, hg, ?_⟩
+    have htext : (rItem (.exception s) last l).1 ++ R = cs!"exception" ++ ((rB1 l).1 ++ ((rStructLike s last (rB1 l).2).1 ++ R)) := by
+      simp only [rItem, rSeq_fst, rSeq_snd, rLit_fst, rLit_snd, List.append_assoc]
+    have hk : itemKeyword ((rItem (.exception s) last l).1 ++ R) = .ok cs!"exception" ((rItem (.exception s) last l).1 ++ R) := by
+      rw [htext]
+      exact itemKeyword_rt (by decide) (by decide) (keyword_then_blank cs!"exception" _ _)
+    unfold Item.parse
+    rw [andThen_of_ok hk]
+    simp only [List.cons.injEq, Char.reduceEq, false_and, and_false, if_false, if_true, reduceIte]
+    rw [htext]
+    exact pmap_of_ok h
+  | .service _, _, hs, _ => simp [Item.supported] at hs
 
 /-! ### the document loop -/
 
